@@ -96,6 +96,9 @@ def gen(rng, tier, index):
     reuse = []
     if rng.random() < 0.3:
         reuse = [rng.choice([0, 0, 1, 1, 2, 3]) for _ in range(n + mr + 2)]
+    if rng.random() < 0.08:
+        # fault: wait() fails with ECHILD while workers are still in the supervisor's table
+        body.insert(rng.randint(0, len(body)), ["e"])
     return {"property": ID, "version": 1, "n": n, "arg": arg, "max_restarts": mr,
             "events": body, "reuse": reuse, "tapes": {}}
 
@@ -140,6 +143,7 @@ def monitor(n, mr, trace, outcome, bad, probe):
     fork_ids = []
     restarts = 0
     finished = None  # None | "exit0" | "raise"
+    wait_error = False
     last = "start"
     nonplain = 0
     for ent in trace:
@@ -200,6 +204,24 @@ def monitor(n, mr, trace, outcome, bad, probe):
                 last = "normal_exit"
             if not live and not pending and finished is None:
                 finished = "exit0"
+        elif what == "wait_error":
+            # injected fault: the kernel has no children left although the model's table has.
+            # Nothing more can be learned about the workers; what remains checkable is the
+            # statement's "exits successfully only after every worker exited normally".
+            if pending:
+                bad("supervisor.missing_start", f"waited while worker id(s) {pending} were due",
+                    "supervisor.missing_start/" + ("restart" if last == "abnormal" else "initial"))
+                pending = []
+            if finished is not None:
+                bad("supervisor.continued_after_end", "os.wait() after the supervisor should have "
+                    f"{'failed' if finished == 'raise' else 'exited'}",
+                    "supervisor.continued_after_end/" + finished)
+            else:
+                wait_error = True
+                nonplain += 1
+                probe("wait_failed_with_workers_in_table")
+            last = "wait_error"
+            break
         elif what in ("wait_echild", "wait_blocks"):
             if pending:
                 bad("supervisor.missing_start", f"waited while worker id(s) {pending} were due",
@@ -208,7 +230,15 @@ def monitor(n, mr, trace, outcome, bad, probe):
         elif what == "sys_exit":
             pass
     kind = outcome[0]
-    if kind == "exit":
+    if wait_error and kind in ("exit", "raised", "_exit"):
+        # after the wait failure the supervisor may fail in any way, but must not report success
+        if kind == "raised" or outcome[1] not in (0, None):
+            probe("supervisor_failed_after_wait_error")
+        else:
+            bad("supervisor.exit_too_early", f"sys.exit({outcome[1]!r}) after os.wait() failed with "
+                f"ECHILD: worker(s) {sorted(x for x in live.values() if x is not None)} were never "
+                "seen to exit normally", "supervisor.exit_too_early/wait_error")
+    elif kind == "exit":
         if finished == "exit0" and not pending:
             probe("exit0_reached")
             if outcome[1] not in (0, None):
